@@ -1,5 +1,6 @@
 import RainModel.Lemmas.LoopStopped
 import RainModel.Lemmas.LoopMeta
+import RainModel.Lemmas.LoopAdmI
 /-!
 C13, step form: the sizes of the running metadata downloads (`idls`).  No handler ever creates a metadata
 download or changes the size of one (they are closed, cleared, or updated in place); only `reconcileIdl`
@@ -322,15 +323,8 @@ theorem reconcileIdl_idlInv (s : St) (impl : List Nat) (h : IdlInv s) (ha : (rec
   · exact h d h1
   · exact ⟨h0, hmax⟩
 
-/-- The implementation's choice of metadata downloads after event `e` was accepted by `reconcileIdl`. -/
-def Ev.admissibleI (sp : St × Parked) (e : Ev) : Prop :=
-  (reconcileIdl (reconcile (step sp.1 sp.2 e.known e.op).1.st e.impl).1 e.implI).2 = []
-
-/-- Every choice of metadata downloads along the run was accepted (the runs on which the driver does not
-report a C13 violation). -/
-def drunAdmissibleI : St × Parked → List Ev → Prop
-  | _, [] => True
-  | sp, e :: evs => e.admissibleI sp ∧ drunAdmissibleI (dstep sp e) evs
+-- `Ev.admissibleI sp e` (the implementation's choice of metadata downloads after event `e` was accepted by
+-- `reconcileIdl`) and `drunAdmissibleI` (… after every event of the run): `Lemmas/LoopAdmI.lean`.
 
 theorem dstep_idlInv (sp : St × Parked) (e : Ev) (h : IdlInv sp.1) (ha : e.admissibleI sp) :
     IdlInv (dstep sp e).1 := by
